@@ -11,3 +11,6 @@ def run_proofs(ctx):
     from vf.proofs.c17_layers import run_proofs as layer_proofs
 
     layer_proofs(ctx)
+    from vf.proofs import c10_vars
+
+    c10_vars.run_proofs(ctx)          # term_variables keeps EVERY term of the structure (also one encoded into zero columns): variables / required_variables after materialization
